@@ -1,6 +1,10 @@
 """Spec -> code replay for RoSem.tla: build the declared robust model through rsome.ro, solve it,
 return what the public API reports (scaled integers go back to TLC for the post-condition of
-C01/C02), plus an independent float oracle (vertex expansion LP solved directly with HiGHS)."""
+C01/C02), plus an independent float oracle (vertex expansion LP solved directly with HiGHS).
+
+Curved sets (ro_catalogue.DENSE_SETS): the vertex expansion is solved twice, over a dense INNER polygon (members
+of the set: a relaxation of the semi-infinite program) and a dense OUTER polygon (a restriction), both derived
+from the catalogue's membership functions; the returned solution is also evaluated at every inner vertex."""
 import math
 
 import numpy as np
@@ -32,8 +36,20 @@ def build(job):
             for k in (mask if var % 3 else list(reversed(mask))):
                 y.adapt(z[k])
     B = cat.builders()
+    # Every use of a set writes the set afresh (new expression objects), as a user's helper function would - except
+    # for the sets of cat.IPCONE_POW2 unless job['respell_ipcone'] is set: a set with an integer power cone whose
+    # degrees sum to a power of two (power(z,2), gmean of two) makes the SECOND forall()/minmax() of a model raise
+    # ValueError (lp.py concat() pads only up to model.last, the freshly written expression is wider than the support
+    # model after its auxiliary variables were dropped).  Recorded for the maintainer of the checks; the constraint
+    # objects of these sets are therefore created once, before the first use.
+    once = {}
+    if not job.get('respell_ipcone'):
+        for s_ in sorted(sets_used & cat.IPCONE_POW2):
+            once[s_] = B[s_](z, u)
 
     def uset(s):
+        if s in once:
+            return list(once[s])
         cons = B[s](z, u)
         return cons
 
@@ -82,8 +98,38 @@ def build(job):
         sid = p['dset'] if s == 0 else s
         return c.forall(uset(sid)) if var % 2 else c.forall(*uset(sid))
 
-    for r, tm in zip(p['rows'], rec['rows']):
-        e = expr(tm)
+    def expr2(tms):
+        """ONE 2-row array expression for two templates (matrix products on the variable arrays)."""
+        a = np.array([t['a'] for t in tms], dtype=float)             # (rows, 2)
+        Bz = np.array([t['B'] for t in tms], dtype=float)
+        c = np.array([t['c'] for t in tms], dtype=float)
+        b = np.array([t['b'] for t in tms], dtype=float)
+        e = None
+
+        def add(e, t):
+            return t if e is None else e + t
+        if a.any():
+            e = add(e, a @ x)
+        for j in range(2):
+            M = np.array([t['A'][j] for t in tms], dtype=float)      # (rows, k): coefficient of z_k x_j
+            if M.any():
+                e = add(e, (M @ z) * x[j] if (var + j) % 2 else x[j] * (M @ z))
+        if c.any():
+            e = add(e, c * y)
+        if Bz.any():
+            e = add(e, Bz @ z)
+        if b.any():
+            e = add(e, b)
+        return e
+
+    rows = list(zip(p['rows'], rec['rows']))
+    if p.get('arr'):
+        # the two rows as one vector-valued constraint object (same sense, same set)
+        (r1, t1), (r2, t2) = rows
+        assert r1['sense'] == r2['sense'] and r1['set'] == r2['set']
+        rows = [(r1, [t1, t2])]
+    for r, tm in rows:
+        e = expr2(tm) if isinstance(tm, list) else expr(tm)
         if r['sense'] == 'le':
             c = (e <= 0)
         elif r['sense'] == 'ge':
@@ -129,12 +175,72 @@ def read_solution(m, h):
     return x, yv, float(m.get()), nanpat
 
 
-def vertex_lp(rec, xb, integer):
-    """Independent oracle for polytope programs: expand every row at every vertex and solve with
-    scipy directly (never through rsome). Variables: x1, x2, y0, Y1, Y2, t."""
+def used_sets(p):
+    return {p['dset']} | {r['set'] for r in p['rows'] if r['set']}
+
+
+def side_verts(rec, side):
+    """Vertex lists per set id (keys str): TLC's polytope vertices; for curved sets the dense polygon of a side
+    ('inner' | 'outer')."""
+    verts = rec['verts']
+    if not isinstance(verts, dict):
+        verts = {str(i + 1): v for i, v in enumerate(verts)}
+    verts = dict(verts)
+    for s in used_sets(rec['prog']):
+        if s in cat.DENSE_SETS:
+            verts[str(s)] = cat.dense(s)[side]
+    return verts
+
+
+def member_check(rec, xb, x, yv, obj):
+    """The returned solution at MEMBERS of the sets (polytope vertices, dense inner polygons of curved sets), in floats:
+    viol = worst violation of a robust row / of the box of the decision rule, relative to 1 + the mass of the terms;
+    objgap = by how much the worst-case objective over members exceeds the reported objective (mirrored for max)."""
+    p = rec['prog']
+    verts = side_verts(rec, 'inner')
+
+    def lhs(tm, Z):
+        ZMAX = max(1.0, float(np.max(np.abs(Z))))
+        g0 = tm['a'][0] * x[0] + tm['a'][1] * x[1] + tm['c'] * yv[0] + tm['b']
+        g = [tm['A'][0][k] * x[0] + tm['A'][1][k] * x[1] + tm['c'] * yv[1 + k] + tm['B'][k] for k in range(2)]
+        mass = 1.0 + sum(abs(tm['a'][i] * x[i]) for i in range(2)) + abs(tm['c'] * yv[0]) + abs(tm['b']) \
+            + ZMAX * sum(abs(tm['A'][i][k] * x[i]) for i in range(2) for k in range(2)) \
+            + ZMAX * sum(abs(tm['c'] * yv[1 + k]) + abs(tm['B'][k]) for k in range(2))
+        return g0 + Z @ np.array(g), mass
+
+    viol = 0.0
+    where = None
+    for i, (r, tm) in enumerate(zip(p['rows'], rec['rows'])):
+        s = p['dset'] if r['set'] == 0 else r['set']
+        Z = np.array(verts[str(s)], dtype=float)
+        v, mass = lhs(tm, Z)
+        w = {'le': v.max(), 'ge': (-v).max(), 'eq': np.abs(v).max()}[r['sense']] / mass
+        if w > viol:
+            viol, where = float(w), 'row%d' % i
+    Zd = np.array(verts[str(p['dset'])], dtype=float)
+    if p['mask'] != 'none':
+        yz = yv[0] + Zd @ np.array(yv[1:])
+        w = max(yz.max() - xb, -xb - yz.min()) / (1.0 + xb + abs(yv[0]) + max(1.0, float(np.max(np.abs(Zd)))) * (abs(yv[1]) + abs(yv[2])))
+        if w > viol:
+            viol, where = float(w), 'rulebox'
+    w = float(np.max(np.abs(x)) - xb) / (1.0 + xb)
+    if w > viol:
+        viol, where = w, 'xbox'
+    ov, mass = lhs(rec['objT'], Zd if p['osense'] in ('minmax', 'maxmin') else np.zeros((1, 2)))
+    if p['osense'] in ('min', 'minmax'):
+        objgap = float(ov.max() - obj) / mass
+    else:
+        objgap = float(obj - ov.min()) / mass
+    return dict(viol=viol, where=where, objgap=objgap)
+
+
+def vertex_lp(rec, xb, integer, verts=None):
+    """Independent oracle: expand every row at every vertex and solve with scipy directly (never through rsome).
+    Variables: x1, x2, y0, Y1, Y2, t.  verts: vertex lists per set (default: TLC's polytope vertices)."""
     from scipy.optimize import linprog, milp, LinearConstraint, Bounds
     p = rec['prog']
-    verts = rec['verts']
+    if verts is None:
+        verts = rec['verts']
     mask = {'none': None, 'm0': [], 'm1': [0], 'm2': [1], 'm12': [0, 1]}[p['mask']]
 
     def lin(tm, zv):
@@ -214,6 +320,7 @@ def _replay(job, phase):
         m.solve(solver, display=False)
     phase[0] = 'read'
     ok = m.solution is not None and not (isinstance(m.solution.objval, float) and math.isnan(m.solution.objval))
+    out['solver_status'] = str(getattr(m.solution, 'status', None))
     if ok:
         x, yv, obj, nanpat = read_solution(m, h)
         out.update(status='ok', x=[float(v) for v in x], y=yv, obj=obj, nanpat=nanpat)
@@ -227,11 +334,17 @@ def _replay(job, phase):
         except Exception as e:
             out['get_after_fail'] = 'raised:' + type(e).__name__
     phase[0] = 'oracle'
-    poly = all(rec['verts'][str(s)] if isinstance(rec['verts'], dict) else True for s in [p['dset']])
-    try:
+    curved = sorted(used_sets(p) & cat.DENSE_SETS)
+    if curved:
+        # the oracle is ours: a failure here is machinery (replay() re-raises in phase 'oracle')
+        out['lp'] = None
+        out['lp_in'] = vertex_lp(rec, job['XB'], p['xint'], side_verts(rec, 'inner'))
+        out['lp_out'] = vertex_lp(rec, job['XB'], p['xint'], side_verts(rec, 'outer'))
+        out['dense_gap'] = max(cat.dense(s)['gap'] for s in curved)
+        if out['status'] == 'ok':
+            out['members'] = member_check(rec, job['XB'], np.array(out['x']), out['y'], out['obj'])
+    else:
         out['lp'] = vertex_lp(rec, job['XB'], p['xint'])
-    except Exception as e:   # the oracle is ours: a failure here is machinery
-        raise
     return out
 
 
